@@ -25,12 +25,14 @@ pub fn payload_chunks(c: &mut Case<'_>, max_chunks: usize, max_chunk: usize) -> 
     let mut datas = Vec::new();
     for i in 0..n {
         let len = match c.t.below(4) {
-            0 => 1 + c.t.below(16),
+            // (a data chunk may be empty: on the wire it looks like the terminating chunk but is not the last one)
+            0 => c.t.below(17),
             1 => 1 + c.t.len(max_chunk.min(700)),
             2 => 1 + c.t.len(max_chunk),
             _ => 8192,
         }
         .min(max_chunk.max(1));
+        let len = if len == 0 && i + 1 == n && c.t.bool() { 1 } else { len };
         let seed = c.t.u8();
         let d: Vec<u8> = (0..len).map(|j| seed.wrapping_add((j * 31 + i * 7) as u8)).collect();
         datas.push(d);
@@ -228,8 +230,9 @@ fn faults(c: &mut Case<'_>) -> CaseResult {
             // the same upload without any Content-Length (and without signing one)
             let u2 = build_upload_with(c, u.datas[..n_data].to_vec(), upload_part, false);
             let mut ch = u2.chunks.clone();
-            if fault == "no-content-length-faulty" && n_data > 0 {
-                let k = c.t.below(n_data);
+            let non_empty: Vec<usize> = (0..n_data).filter(|&k| !ch[k].data.is_empty()).collect();
+            if fault == "no-content-length-faulty" && !non_empty.is_empty() {
+                let k = *c.t.pick(&non_empty);
                 let i = c.t.below(ch[k].data.len());
                 ch[k].data[i] ^= 1 << c.t.below(8);
                 expect = Expect::ErrorAfter { max_chunks: k };
@@ -241,8 +244,13 @@ fn faults(c: &mut Case<'_>) -> CaseResult {
             req_override = Some(u2.req.clone());
         }
         "none" => body = sigv4::encode_chunks(&chunks),
+        "data-bit" if chunks[..n_data].iter().all(|ch| ch.data.is_empty()) => {
+            fault = "none";
+            body = sigv4::encode_chunks(&chunks);
+        }
         "data-bit" => {
-            let k = c.t.below(n_data);
+            let non_empty: Vec<usize> = (0..n_data).filter(|&k| !chunks[k].data.is_empty()).collect();
+            let k = *c.t.pick(&non_empty);
             let i = c.t.below(chunks[k].data.len());
             chunks[k].data[i] ^= 1 << c.t.below(8);
             body = sigv4::encode_chunks(&chunks);
@@ -360,6 +368,12 @@ fn faults(c: &mut Case<'_>) -> CaseResult {
                 }
                 body.truncate(t);
                 expect = Expect::ErrorAfter { max_chunks: whole.min(n_data) };
+                // what is left may itself be a complete upload: it ends with a correctly chained empty chunk and carries
+                // the declared number of bytes (an empty data chunk is spelled like the terminating one) - not asserted
+                if at_boundary && whole >= 1 && chunks[whole - 1].data.is_empty() && chunks[..whole].iter().map(|ch| ch.data.len()).sum::<usize>() == declared {
+                    c.label("trunc:complete-by-itself");
+                    expect = Expect::DontCare;
+                }
                 let class = if at_boundary { "truncation-accepted:boundary" } else if in_header { "truncation-accepted:header" } else { "" };
                 if !class.is_empty() {
                     if !c.allow(class) {
@@ -481,48 +495,54 @@ pub fn run(r: &mut Runner) {
         }
     });
     r.search("faults", r.scale(8_000, 300_000), 512, faults);
-    // exhaustive truncation of a three-chunk upload at every byte offset
-    let fixed = |c: &mut Case<'_>| build_upload(c, vec![vec![b'a'; 40], vec![b'b'; 17], vec![b'c'; 3]], false);
-    let total_len = {
-        // length is independent of the signatures
-        let fake: Vec<Chunk> = [40usize, 17, 3, 0].iter().map(|&n| Chunk { data: vec![0; n], signature: "0".repeat(64) }).collect();
-        sigv4::encode_chunks(&fake).len() as u64
-    };
-    r.exhaustive("truncate-every-offset", total_len, |t, c| {
-        let u = fixed(c);
-        let mut body = sigv4::encode_chunks(&u.chunks);
-        let t = t as usize;
-        let mut off = 0;
-        let mut whole = 0;
-        let mut at_boundary = t == 0;
-        let mut in_header = false;
-        for ch in &u.chunks {
-            let e = sigv4::encode_chunk(ch);
-            let header_len = e.iter().position(|&b| b == b'\n').unwrap() + 1;
-            if off + e.len() <= t {
-                whole += 1;
-                off += e.len();
-                if off == t {
-                    at_boundary = true;
+    // exhaustive truncation at every byte offset: a three-chunk upload, and one with empty data chunks in between
+    // (an empty chunk is spelled like the terminating one)
+    for (phase, sizes) in [("truncate-every-offset", vec![40usize, 17, 3]), ("truncate-every-offset-empty-chunks", vec![40, 0, 17, 0, 3])] {
+        let n_data = sizes.len();
+        let letters = [b'a', b'b', b'c', b'd', b'e'];
+        let datas: Vec<Vec<u8>> = sizes.iter().enumerate().map(|(i, &n)| vec![letters[i]; n]).collect();
+        let fixed = move |c: &mut Case<'_>| build_upload(c, datas.clone(), false);
+        let total_len = {
+            // length is independent of the signatures
+            let fake: Vec<Chunk> = sizes.iter().copied().chain([0]).map(|n| Chunk { data: vec![0; n], signature: "0".repeat(64) }).collect();
+            sigv4::encode_chunks(&fake).len() as u64
+        };
+        r.exhaustive(phase, total_len, |t, c| {
+            let u = fixed(c);
+            let mut body = sigv4::encode_chunks(&u.chunks);
+            let t = t as usize;
+            let mut off = 0;
+            let mut whole = 0;
+            let mut at_boundary = t == 0;
+            let mut in_header = false;
+            for ch in &u.chunks {
+                let e = sigv4::encode_chunk(ch);
+                let header_len = e.iter().position(|&b| b == b'\n').unwrap() + 1;
+                if off + e.len() <= t {
+                    whole += 1;
+                    off += e.len();
+                    if off == t {
+                        at_boundary = true;
+                    }
+                } else {
+                    if t > off && t < off + header_len {
+                        in_header = true;
+                    }
+                    break;
                 }
-            } else {
-                if t > off && t < off + header_len {
-                    in_header = true;
-                }
-                break;
             }
-        }
-        body.truncate(t);
-        c.nontrivial();
-        c.fp(&t);
-        c.label(format!("trunc:{}", if at_boundary { "boundary" } else if in_header { "header" } else { "inside-data" }));
-        let class = if at_boundary { "truncation-accepted:boundary" } else if in_header { "truncation-accepted:header" } else { "" };
-        if !class.is_empty() && !c.allow(class) {
-            return Ok(());
-        }
-        match judge(c, &u, &body, None, "truncate", &Expect::ErrorAfter { max_chunks: whole.min(3) }, 60) {
-            Err(crate::engine::Stop::Fail { sig, msg }) if sig.starts_with("faulty-upload-ended-ok") && !class.is_empty() => Err(c.fail(class, msg)),
-            other => other,
-        }
-    });
+            body.truncate(t);
+            c.nontrivial();
+            c.fp(&t);
+            c.label(format!("trunc:{}", if at_boundary { "boundary" } else if in_header { "header" } else { "inside-data" }));
+            let class = if at_boundary { "truncation-accepted:boundary" } else if in_header { "truncation-accepted:header" } else { "" };
+            if !class.is_empty() && !c.allow(class) {
+                return Ok(());
+            }
+            match judge(c, &u, &body, None, "truncate", &Expect::ErrorAfter { max_chunks: whole.min(n_data) }, 60) {
+                Err(crate::engine::Stop::Fail { sig, msg }) if sig.starts_with("faulty-upload-ended-ok") && !class.is_empty() => Err(c.fail(class, msg)),
+                other => other,
+            }
+        });
+    }
 }
